@@ -109,7 +109,14 @@ func followUpChain(g *gen.G, variant int) ([]*gen.Change, []gen.Plant, string) {
 			plants = append(plants, gen.Plant{Kind: "expr", Text: fmt.Sprintf(format, n[0], n[1])})
 		}
 	}
-	switch variant % 6 {
+	switch variant % 7 {
+	case 6:
+		// a later change elides, and reproduces, arguments that an earlier change generated next to captured ones
+		plant("chainOld(%s, %s)")
+		return []*gen.Change{
+			mk("c01-chain-1", []gen.MetaVar{q, p}, "chainOld(«cq», «cp»)", "chainMid(ctxv, «cq», nil, «cp»)"),
+			mk("c01-chain-2", nil, "chainMid(ctxv, ‹1:args›)", "chainNew(ctxv, ‹1:args›)"),
+		}, plants, "elides-arguments-an-earlier-change-generated"
 	case 4:
 		// an earlier change tries its metavariable on a node, fails there, and rewrites a site inside that node; a later
 		// change binds the node: it stands for the code as it is now
